@@ -498,6 +498,9 @@ func TestCheck(t *testing.T) {
 		if c.Carrier == "listener-wiring" {
 			k, d := executeListenerWiring(c.Ops[0].Kind)
 			if k != "inconclusive" && k != "setup" {
+				if k != "" {
+					k += "|" + c.Ops[0].Kind
+				}
 				record(r, c, k, d, 1)
 			}
 			return
@@ -672,6 +675,9 @@ func TestCheck(t *testing.T) {
 				r.Inconclusive(c.String() + ": " + d)
 				r.Eval(1)
 			} else {
+				if k != "" {
+					k += "|" + mode // one fingerprint (and one determinism recheck) per history
+				}
 				record(r, c, k, d, 1)
 				r.State(mc.Hash("listener-wiring", mode, k))
 				r.Nontrivial(mc.Hash(c.String()))
